@@ -388,14 +388,16 @@ pub fn main(args: &crate::Args) {
             rep.violation(&key, &format!("{outcome} on input {name} (order {order}, chunking {chunk}, {} bytes)", bytes.len()), &json!({"input_hex": hex(&bytes[..bytes.len().min(20000)]), "input_len": bytes.len(), "name": name, "order": order, "chunk": chunk}));
         }
     }
-    if done as usize != cases.len() {
+    if let Some(h) = crate::workers::stopped_early() {
+        rep.caps.push(format!("stopped after {h} calls that did not return within the deadline: {} of {} cases were not run", cases.len() - done as usize, cases.len()));
+    } else if done as usize != cases.len() {
         crate::explore::machinery_failure(&format!("only {done} of {} cases reported an outcome", cases.len()));
     }
     let seeds_n = cases.iter().filter(|c| c.3.ends_with(":seed")).map(|c| c.3.clone()).collect::<std::collections::BTreeSet<_>>().len();
     rep.rule = format!("(a) {} byte strings of length <= 2 and all 3/4-byte strings behind the signatures ff0a / 0000; (b) ALL 1-deviation mutants (every byte position up to a per-seed cap x {{00, ff, b^01, b^80, b+1, b-1, 6 further single-bit flips}}, and truncation at every such position) of {} seeds (jxlw corpus, the 60 hostile regressions of the repository, cmyk_layers.jxl), each seed also in all 6 call orders and 4 chunkings; (c) structured inputs: every 1-deviation extreme-but-valid image header of C14's alphabet and 20 degenerate colour encodings (unknown colour space / transfer function, gamma 0, degenerate chromaticities, XYB) followed by a valid frame; every input runs read() or chunked feed + try_init, then the four call groups (metadata incl. rendered_icc/cicp/pixel_format/aux boxes; render keyframes + loading frame + region; JPEG reconstruction status/reconstruct; request_color_encoding/request_icc) in an order fixed by the input's hash; in worker subprocesses built with overflow checks + debug assertions, 64 MiB tracker, {} s per-case watchdog. Oracle: every call returns; no panic, abort or hang. Non-trivial = input gets past initialisation.", if quick { "sampled" } else { "ALL 65793" }, &seeds_n.to_string(), deadline.as_secs());
     rep.sample(json!({"input_hex": hex(&cases[cases.len() / 2].0[..cases[cases.len() / 2].0.len().min(64)]), "name": cases[cases.len() / 2].3}));
     rep.sample(json!({"name": cases.last().unwrap().3, "bytes": cases.last().unwrap().0.len()}));
-    rep.exhaustive = !quick;
+    rep.exhaustive = !quick && crate::workers::stopped_early().is_none();
     rep.assumptions = vec![
         "inputs more than one deviation away from a seed are outside the explored space".into(),
         "feeding again after feed_bytes returned Err is not in the alphabet (the API reports no consumed count on error)".into(),
